@@ -5,12 +5,16 @@ import vlib, flow, gen_trans
 import pt_common as pc
 
 gen_trans.register('mm_vmm.json')   # Go -> Gallina translation of the pageTableEntry / Frame / Page helpers (Gen/Trans_mm_vmm.v, used by Vmm/PtTrans.v)
+gen_trans.register('vmm_map.json')  # same mode: walk (function parameter as seam), Map / Unmap / pteForAddress (closures passed to walk as gvisit bodies), Translate, MapTemporary (Gen/Trans_vmm_map.v, Vmm/MapTrans.v)
+gen_trans.register('vmm_pdt.json')  # "memory as state" mode: PageDirectoryTable.{Init,Map,Unmap,Activate} with raw-pointer loads/stores and stateful seams (Gen/Trans_vmm_pdt.v, Vmm/PdtTrans.v)
 from pt_common import LO, P, RW, M64, M36, TEMP_PAGE
 
 
 class C04(flow.Spec):
     prop = 'C04'
-    props_files = ['theories/Props/C04.v', 'theories/Props/C04_examples.v']
+    props_files = ['theories/Props/C04.v', 'theories/Props/C04_examples.v',
+                   'theories/Props/C04_pdt_trans.v', 'theories/Props/C04_pdt_trans_examples.v',
+                   'theories/Props/C04_map_trans.v', 'theories/Props/C04_map_trans_examples.v']
     model_targets = ['theories/Vmm/Pt.vo']
     pkg = 'mm/vmm'
     harness = pc.HARNESS + [os.path.join(pc.H, 'zz_verif_c04_test.go')]
@@ -26,6 +30,8 @@ class C04(flow.Spec):
         "TLB coherence of the recursive window while an inactive table is patched into slot 511 is outside the model; PageDirectoryTable.Map/Unmap dereference the active root's physical address (identity-mapped in the kernel during boot), modelled as a physical access",
         'C04_histories covers Map/Unmap/Translate on the active space with the zero-frame guard unarmed; C04_histories_full covers the whole mapping interface on any number of address spaces (page faults: C06; setupPDTForKernel: C05)',
         'translator gen/gotrans + Lib/GoOps.v for the translation tie of the pageTableEntry / Frame / Page helpers (C04_pte_helpers_are_translation)',
+        "translation tie of walk / Map / Unmap / Translate / MapTemporary (C04_walk_is_translation, C04_map_is_translation, ...): as for the pdt.go tie below, all accesses virtual; walk's contract (closure called on PtAccess.walk_items va in order until false) is itself a theorem about the translation of walk; Map / MapTemporary under map_stable (every entry the walk overwrites is still found at its address afterwards: decidable sufficient condition map_stable_b = the resolving hardware walk does not read the entry; fails for the page of the recursive window itself), the trace of seam calls is not part of these statements (M.wmem)",
+        "translation tie of PageDirectoryTable.{Init,Map,Unmap,Activate} (C04_pdt_*_is_translation): gen/gotrans's memory mode (ext_mem.go) + Vmm/PtAccess.v (what a raw-pointer dereference means: Init = virtual, resolved per access by the MMU model; Map/Unmap = physical identity window - a per-function attribute of gen/gotrans/vmm_pdt.json) + the oracles of Vmm/PdtTrans.v for the seams (mapFn = the model's map_page, kernel.Memset = the model's page-zeroing step, ...); Init under init_stable (the initialised frame is not a live table of the temporary page's path), Map/Unmap for 64-bit memory words",
         'huge-page and poked (fabricated) upper-level entries: agreement only (errNoHugePageSupport paths are exercised by the correspondence, not by the monitor)']
     partial = []
 
